@@ -116,8 +116,35 @@ def r1(ctx):
     ctx.count(len(muts))
     ok = True
     seen_entry = False
+    # sibling idiom B: `match qp.get_mut(&name) { Some(list) => list.extend(values), None => { qp.insert(name, values); } }`
+    idiom_b = None
+    gms = [d for d in muts if re.search(r"HashMap::<K, V, S, A>::get_mut$", d["term"]["callee"])]
+    inss = [d for d in muts if re.search(r"HashMap::<K, V, S, A>::insert$", d["term"]["callee"])]
+    if len(gms) == 1 and len(inss) == 1 and not [d for d in muts if re.search(r"HashMap::<K, V, S, A>::entry$", d["term"]["callee"])]:
+        gm, ins_ = gms[0], inss[0]
+        st_ = b.term(gm["term"]["target"]) if gm["term"].get("target") is not None else None
+        # the switch on the lookup's result (possibly one goto away)
+        sw_ = None
+        for cand in sorted(b.live_blocks()):
+            t_ = b.term(cand)
+            if t_["k"] == "switch":
+                c_ = b.cond_of_switch(cand)
+                if c_ and c_["kind"] == "discr" and c_["place"]["local"] == gm["term"]["dest"]["local"]:
+                    sw_ = cand
+        if sw_ is not None:
+            tg = b.term(sw_)["targets"]
+            some_e = [bb for v, bb in tg if v == 1]
+            none_e = [bb for v, bb in tg if v == 0] or [bb for v, bb in tg if v is None]
+            ik_ = root_local(b, ins_["term"]["args"][1])
+            same_key = ik_ is not None and (ik_ == root_local(b, gm["term"]["args"][1]) or ik_ in b.slice_op(gm["term"]["args"][1], stop_at_calls=lambda t_: True).locals)
+            vsl = b.slice_op(ins_["term"]["args"][2])
+            if some_e and none_e and same_key and b.dominates(none_e[0], ins_["block"]) and not b.dominates(some_e[0], ins_["block"]) and vsl.has_call(r"canonical::query_string_to_normalized_map$"):
+                idiom_b = {"gm": gm, "ins": ins_, "some": some_e[0], "none": none_e[0], "sw": sw_}
     for d in muts:
         c = d["term"]["callee"]
+        if idiom_b and d is idiom_b["ins"]:
+            seen_entry = True
+            continue
         if re.search(r"HashMap::<K, V, S, A>::entry$", c):
             seen_entry = True
             continue
@@ -151,9 +178,13 @@ def r1(ctx):
         ent = recv.find_calls(r"HashMap::<K, V, S, A>::entry$")
         body_it = src.find_calls(r"Iterator::next$")
         probs = []
-        if not ent or qp not in b.slice_op(ent[0][1]["args"][0]).locals:
+        if idiom_b:
+            if not any(cb_ == idiom_b["gm"]["block"] for cb_, _ in recv.calls) or not b.dominates(idiom_b["some"], eb):
+                probs.append("the receiving list is not the one found by query_parameters.get_mut(name)")
+            ent = [(idiom_b["gm"]["block"], idiom_b["gm"]["term"])]
+        elif not ent or qp not in b.slice_op(ent[0][1]["args"][0]).locals:
             probs.append("the receiving list is not query_parameters.entry(name)")
-        if not recv.has_call(r"Entry::<'a, K, V(, A)?>::or_default$|or_insert_with$"):
+        if not idiom_b and not recv.has_call(r"Entry::<'a, K, V(, A)?>::or_default$|or_insert_with$"):
             probs.append("entry is not completed with or_default()")
         if not (src.has_call(r"canonical::query_string_to_normalized_map$") and not src.has_call(r"Uri::query$")):
             probs.append("the appended values are not the body map's")
@@ -169,7 +200,10 @@ def r1(ctx):
         if nx:
             st = b.term(nx[0][1]["target"])
             some = [bb for v, bb in st["targets"] if v == 1] if st["k"] == "switch" else []
-            if not some or not b.postdominates(eb, some[0]):
+            if idiom_b:
+                if not some or not b.postdominates(idiom_b["sw"], some[0]) or not b.postdominates(eb, idiom_b["some"]) or not b.postdominates(idiom_b["ins"]["block"], idiom_b["none"]):
+                    probs.append("the append / insert is conditional (some body pairs are not merged)")
+            elif not some or not b.postdominates(eb, some[0]):
                 probs.append("the append is conditional (some body pairs are not merged)")
         else:
             probs.append("iteration over the body map not found")
